@@ -70,3 +70,74 @@ def monResponsesValid (s : State) : Bool :=
     (t.responses.map (·.op)).eraseDups.length == t.responses.length)
 
 end Drivers.OracleD
+
+namespace Drivers.OracleD
+open Lean Shentu Shentu.Oracle
+
+/-! C15 monitors on observed transitions (independent of the model's step functions) -/
+
+def taskId (t : Task) : String := s!"{t.contract}|{t.function}|{t.begin}"
+def findT (s : State) (t : Task) : Option Task := s.tasks.find? (fun x => taskId x == taskId t)
+
+/-- bond-denomination collateral of a current operator -/
+def collOf (bond : Denom) (s : State) (a : Addr) : Option Int :=
+  (s.ops.find? (·.addr == a)).map (fun o => Coins.amountOf o.coll bond)
+
+/-- a successful response: signer is a current operator, the task exists and is not past its closing block,
+    no earlier response of this operator, score in range -/
+def monRespondAccepted (pre : State) (h : Int) (contract function : String) (score : Int) (op : Addr) : Bool :=
+  match pre.tasks.find? (fun t => t.contract ++ t.function == contract ++ function) with
+  | none => false
+  | some t => pre.ops.any (·.addr == op) && h ≤ t.closing && !(t.responses.any (·.op == op)) && 0 ≤ score && score ≤ 100
+
+/-- a successful removal: by the creator, after the closing block, expired unless forced -/
+def monDeleteAccepted (pre : State) (h t : Int) (contract function : String) (force : Bool) (deleter : Addr) : Bool :=
+  match pre.tasks.find? (fun x => x.contract ++ x.function == contract ++ function) with
+  | none => false
+  | some x => x.creator == deleter && h > x.closing && (force || x.expiration < t)
+
+/-- status changes only pending → succeeded/failed, only in the EndBlock of the closing height; afterwards the record is frozen -/
+def monStatusChanges (pre post : State) (isEnd : Bool) (h : Int) : List String :=
+  post.tasks.filterMap (fun t => match findT pre t with
+    | none => none
+    | some p =>
+      if p.status == t.status then
+        if p.status != 1 && p.result != t.result then some s!"result-changed-after-aggregation:{showTask t}" else none
+      else if p.status != 1 then some s!"status-changed-after-aggregation:{showTask p}->{t.status}"
+      else if !isEnd then some s!"aggregated-outside-endblock:{showTask t}"
+      else if t.closing != h then some s!"aggregated-at-height-{h}-not-closing:{showTask t}"
+      else none)
+
+/-- after EndBlock(h) no pending task has closing ≤ h -/
+def monNoMissedAggregation (post : State) (h : Int) : List String :=
+  post.tasks.filterMap (fun t => if t.status == 1 && t.closing ≤ h then some (showTask t) else none)
+
+/-- the aggregation outcome of one task, judged from the pre-state -/
+def monAggregation (bond : Denom) (pre : State) (p t : Task) : Option String :=
+  let usable := p.responses.filterMap (fun r => (collOf bond pre r.op).map (fun c => (r.score, c)))
+  let W := (usable.map (·.2)).sum
+  let S := (usable.map (fun e => e.1 * e.2)).sum
+  let minC := ((usable.filter (fun e => e.1 == 0)).map (·.2)).sum
+  if W ≤ 0 then
+    if t.status == 3 && t.result == pre.params.aggRes then none
+    else some s!"no-usable-response-but:{showTask t}"
+  else if t.status != 2 then some s!"usable-responses-but-not-succeeded:{showTask t}"
+  else if minC * 3 ≥ W then none
+  else if t.result * W ≤ S + W && t.result * W ≥ S - W then none
+  else some s!"result-not-weighted-mean:S={S},W={W}:{showTask t}"
+
+/-- rewards credited in an EndBlock: only to responders of the tasks finalised now, never more than their bounties -/
+def monBounty (pre post : State) (h : Int) : List String :=
+  let fin := post.tasks.filter (fun t => match findT pre t with
+    | some p => p.status == 1 && t.status == 2
+    | none => false)
+  let bounty := fin.foldl (fun acc t => Coins.add acc t.bounty) []
+  let responders := fin.flatMap (fun t => t.responses.map (·.op))
+  let credited := post.ops.map (fun o =>
+    (o.addr, Coins.sub o.rew (((pre.ops.find? (·.addr == o.addr)).map (·.rew)).getD [])))
+  let total := credited.foldl (fun acc e => Coins.add acc e.2) []
+  let wrong := credited.filter (fun e => !(Coins.isZero e.2) && !(responders.contains e.1))
+  (if Coins.covers bounty total && !(Coins.isAnyNegative total) then [] else [s!"rewards-exceed-bounty:h={h}:credited={Coins.toStr total},bounty={Coins.toStr bounty}"]) ++
+  wrong.map (fun e => s!"reward-to-non-responder:{e.1}:{Coins.toStr e.2}")
+
+end Drivers.OracleD
